@@ -318,9 +318,19 @@ J gen_tunnel(uint64_t seed, const J &ov)
 		if (b32) cfg.set("relay", gen_relay(r, "base32"));
 		else if (r.chance(0.3)) cfg.set("relay", gen_relay(r, r.chance(0.5) ? "base64" : "base64u"));
 		cfg.set("no_check_ip", r.chance(0.12));
-		gen_traffic(r, ops, "c0", r.chance(0.5) ? "srv" : "ext", (int)r.range(15, 45), 0.1, W, ser, maxlen, true);
-		gen_traffic(r, ops, "srv", "c0", (int)r.range(15, 45), 0.1, W, ser, maxlen, true);
+		// a fifth of the runs begin with ten seconds in which no answer gets back to a lazy client with a 1 s interval: it concludes
+		// that the relay cannot hold queries and switches the session to immediate mode in mid-flight (with a query still waiting)
+		double t_start = 0.1;
+		bool lazyoff = r.chance(0.2);
+		if (lazyoff) {
+			J cl2 = cfg["clients"]; cl2.a[0].set("lazy", 1); cl2.a[0].set("interval", 1); cl2.a[0].set("raw", false); cfg.set("clients", cl2);
+			t_start = 14;
+		}
+		gen_traffic(r, ops, "c0", r.chance(0.5) ? "srv" : "ext", (int)r.range(15, 45), t_start, t_start + W, ser, maxlen, true);
+		gen_traffic(r, ops, "srv", "c0", (int)r.range(15, 45), t_start, t_start + W, ser, maxlen, true);
+		if (lazyoff) W += 14;
 		J f = J::obj();
+		if (lazyoff) { f.set("drought_t0_us", (long long)100000); f.set("drought_t1_us", (long long)((9.5 + r.uniform() * 2) * 1e6)); }
 		f.set("ref", "T0"); f.set("t0_us", (long long)200000); f.set("t1_us", (long long)((W + 5) * 1e6));
 		f.set("p_redeliv", r.chance(0.4) ? 0.005 + r.uniform() * 0.05 : 0.03 + r.uniform() * (r.chance(0.3) ? 0.6 : 0.2));
 		f.set("p_rd_newid", r.chance(0.7) ? r.uniform() : 0.0);
